@@ -281,6 +281,16 @@ impl Ctl {
         sending > 0
     }
 
+    /// Bounded-progress predicate for a single task: the run is still in its loop, some task is
+    /// between `begin` and `result_ready` (it runs the preprocessor, possibly waiting for a command),
+    /// and no hook event at all has been seen for `quiet`. Every command the workloads use finishes
+    /// in milliseconds (at most ~1 s for the deliberately slow ones), so a task that shows no
+    /// progress for `quiet` is stuck (e.g. blocked on a pipe nobody drains).
+    pub fn stuck_task(&self, quiet: std::time::Duration) -> bool {
+        let s = lock(&self.st);
+        !s.run_ended && s.last_event.elapsed() >= quiet && s.tasks.iter().any(|t| t.phase == Phase::Running) && !s.tasks.iter().any(|t| matches!(t.phase, Phase::AtBegin | Phase::AtEnd) && (t.release_begin || t.release_end))
+    }
+
     /// Open every gate (used when some thread panics, so that `Drop`'s join cannot block)
     pub fn open_gates(&self) {
         let mut s = lock(&self.st);
